@@ -517,3 +517,31 @@ func Harness_C10_group_unload_announces_off() {
 	verifAssert(len(fx.hub.unreg) == 1, "unloaded-topic-unregistered-once")
 	verifReach("end")
 }
+
+
+// ---- the contact table of a 'me' topic as rebuilt from the store (the real loadContacts): a contact is taken
+// presence from exactly when the user's EFFECTIVE mode on that subscription (want & given) includes presence -
+// a subscription the user has muted (P dropped from its own requested mode) stays muted after 'me' was
+// unloaded and loaded again.
+func Harness_C10_contacts_reloaded_keep_muting() {
+	verifNewStore()
+	verifInitGlobals()
+	u := types.Uid(1)
+	me := verifMeTopic(u)
+	peer := types.Uid(2).UserId()
+	verifUserSubs = []types.Subscription{
+		{User: u.String(), Topic: u.P2PName(types.Uid(2)), ModeWant: verifMode("wantP2P"), ModeGiven: verifMode("givenP2P")},
+		{User: u.String(), Topic: "grpAAAAAAAAAAB", ModeWant: verifMode("wantGrp"), ModeGiven: verifMode("givenGrp")},
+	}
+	verifUserSubs[0].SetWith(peer)
+	err := me.loadContacts(u)
+	verifAssert(err == nil, "contacts-loaded")
+	for i, name := range []string{peer, "grpAAAAAAAAAAB"} {
+		sub := verifUserSubs[i]
+		ps, ok := me.perSubs[name]
+		verifAssert(ok, "every-subscription-is-a-contact")
+		verifAssert(ps.enabled == (sub.ModeWant & sub.ModeGiven).IsPresencer(), "presence-taken-only-with-effective-P-permission")
+		verifAssert(!ps.online, "reloaded-contact-starts-offline")
+	}
+	verifReach("end")
+}
